@@ -10,7 +10,7 @@ import lib
 import suites
 
 PROP = 'C03'
-LEAN_TARGETS = ['CGV.Props.C03']
+LEAN_TARGETS = ['CGV.Props.C03', 'CGV.Props.C03Step']
 RULE = ('suite compat: random descriptor pairs (kinds $ ! < > and stray characters, labels, orders, empty) through '
         'resolve.compatible vs the translated+proved Lean function; suite resolve: random base-graph strings x '
         'fragment sets with unlabelled/surplus/duplicate descriptors (both conventions) and fragmented molecules with '
